@@ -366,7 +366,16 @@ def wire(ctx: Ctx, rule="R-C07-WIRE") -> None:
     o = ctx.func(f"{C.RABBIT_CONS}.on_new_message")
     mc = [c for c in ast.walk(e.node) if isinstance(c, ast.Call) and dotted(c.func) == "MessageContent"]
     ctx.require(len(mc) == 1, f"{e.qualname}: MessageContent(...) not found")
-    body_w = {k.arg: unparse(k.value) for k in mc[0].keywords}
+    def kwtext(v):
+        if isinstance(v, ast.Name) and C.stored_value(e, v.id) is not None:
+            v = C.stored_value(e, v.id)  # computed into a local first (one assignment or the two arms of an if/else)
+        t3 = C.negate_aware_ifexp(v)
+        if t3 is not None and isinstance(t3[0], ast.Compare) and isinstance(t3[0].ops[0], ast.Is) and C.is_const(t3[0].comparators[0], None):
+            # `<a> if x is None else <b>`: written with the non-None arm first
+            return f"{unparse(t3[2])} if {unparse(t3[0].left)} is not None else {unparse(t3[1])}"
+        return C.utext(e, v)
+
+    body_w = {k.arg: kwtext(k.value) for k in mc[0].keywords}
     body_r = {s.slice.value for s in ast.walk(o.node) if isinstance(s, ast.Subscript) and dotted(s.value) == "decoded" and isinstance(s.slice, ast.Constant)}
     ctx.check(set(body_w) == body_r == {"payload", "parameters"}, rule, e, "rabbitmq body keys written == read", f"{sorted(body_w)}", f"rabbitmq body: written {sorted(body_w)} vs read {sorted(body_r)}",
               instance="rabbitmq body keys")
